@@ -24,7 +24,7 @@ func checkC11(c *Ctx) {
 	roots := c.Roots()
 	reach := c.ConsensusReach()
 	r.Min("C11.debit-identity", 1)
-	r.Min("C11.commission-form", 2)
+	r.Min("C11.commission-form", 4)
 	r.Min("C11.commission-bound", 7)
 	r.Min("C11.convert-truncates", 3)
 	r.Min("C11.credit", 2)
@@ -109,6 +109,68 @@ func checkC11(c *Ctx) {
 			ok := feeRe.MatchString(ef) && comRe.MatchString(ec) && ea == want
 			r.Check(ok, "C11.commission-form", "event:"+fname(f), c.pos(in), "scheduled = converted(Amount) - commission - converted(Fee), with the commission and fee that are passed on",
 				sprintf("the cross-chain transfer does not schedule converted(Amount) - commission - converted(Fee) with the same commission/fee values: amount=%s fee=%s commission=%s", ea, ef, ec))
+		})
+	}
+
+	// ---- commission-form: the rate is the destination chain's -----------------------------------
+	// wherever a withdrawal with a holder commission is queued, the TokenInfo whose Commission is charged is the
+	// one looked up for the chain the withdrawal is queued on (rates are configured per chain and token)
+	for _, f := range sortedFuncs(reach) {
+		if p.L.IsGenerated(f.Pos()) {
+			continue
+		}
+		ana.Calls(f, func(site ssa.CallInstruction, d ana.CalleeDesc) {
+			if !isInsert(site) {
+				return
+			}
+			ca := coinArgs(site)
+			if len(ca) != 3 {
+				return
+			}
+			// the holder-commission call that feeds the commission coin
+			lc := p.Leaves(ca[2], ana.PVOpt{Opaque: func(d ana.CalleeDesc) bool { return d.Name == "GetCommissionForHolder" }})
+			var gch *ssa.Call
+			for lab, vals := range lc.Vals {
+				if strings.HasSuffix(lab, "GetCommissionForHolder") {
+					for _, v := range vals {
+						if call, _ := ana.UnwrapCall(v); call != nil {
+							gch = call
+						}
+					}
+				}
+			}
+			if gch == nil {
+				return
+			}
+			in := site.(ssa.Instruction)
+			var insertChain ssa.Value
+			for _, a := range site.Common().Args {
+				if n := ana.NamedOf(a.Type()); n != nil && n.Obj().Name() == "ChainID" && insertChain == nil {
+					insertChain = a
+				}
+			}
+			// the TokenInfo the rate is read from and the lookup that produced it
+			var lookupChain ssa.Value
+			rate := gch.Call.Args[len(gch.Call.Args)-1]
+			root, path := rootAndPath(rate)
+			if path == "Commission" && root != nil {
+				if lk, _ := ana.UnwrapCall(root); lk != nil {
+					for _, a := range lk.Call.Args {
+						if n := ana.NamedOf(a.Type()); n != nil && n.Obj().Name() == "ChainID" {
+							lookupChain = a
+						}
+					}
+				}
+			}
+			okChain := false
+			detail := "the rate is not the Commission field of a token looked up by chain"
+			if insertChain != nil && lookupChain != nil {
+				a, b := strings.Join(p.Leaves(insertChain, ana.PVOpt{}).List(), ","), strings.Join(p.Leaves(lookupChain, ana.PVOpt{}).List(), ",")
+				okChain = a == b && a != ""
+				detail = sprintf("queued on chain <- %s, rate of the token looked up for chain <- %s", a, b)
+			}
+			r.Check(okChain, "C11.commission-form", "rate-chain:"+fname(f), c.pos(in), "the commission rate is that of the token on the chain the withdrawal is queued on",
+				"the commission charged on a withdrawal is not the configured rate of the token on the destination chain: "+detail)
 		})
 	}
 
